@@ -135,7 +135,7 @@ func (r *Run) Fail(check string, input any, choices []int, observed, expected an
 	if finding != "" && r.known[finding] {
 		h := r.Known[finding]
 		if h == nil {
-			h = &KnownHit{Example: map[string]any{"input": input, "observed": observed, "expected": expected, "explanation": explanation}}
+			h = &KnownHit{Example: map[string]any{"input": jsonSafe(input), "observed": jsonSafe(observed), "expected": jsonSafe(expected), "explanation": explanation}}
 			r.Known[finding] = h
 		}
 		h.Count++
@@ -152,10 +152,19 @@ func (r *Run) Fail(check string, input any, choices []int, observed, expected an
 	if finding != "" {
 		explanation += " [class " + finding + ", not listed as known]"
 	}
+	observed, expected = jsonSafe(observed), jsonSafe(expected)
 	r.Violations = append(r.Violations, Violation{
 		Property: r.Property, Check: check, Input: raw, Choices: choices,
 		Observed: observed, Expected: expected, Explanation: explanation,
 	})
+}
+
+// jsonSafe makes sure x can be marshalled (NaN/Inf floats cannot): otherwise it is rendered as text.
+func jsonSafe(x any) any {
+	if _, err := json.Marshal(x); err != nil {
+		return fmt.Sprintf("%+v", x)
+	}
+	return x
 }
 
 // Stop reports whether the check should stop (budget exceeded or enough violations).
